@@ -42,6 +42,7 @@ fn main() {
             "C11" => checks::c11::replay(&ctx, body),
             "C05" => checks::c05::replay(&ctx, body),
             "C06" => checks::c06::replay(&ctx, body),
+            "C07" => checks::c07::replay(&ctx, body),
             "C10" => checks::c10::replay(&ctx, body),
             "C09" => checks::c09::replay(&ctx, body),
             "C08" => checks::c08::replay(&ctx, body),
@@ -60,6 +61,7 @@ fn main() {
             "C11" => checks::c11::run(&ctx),
             "C05" => checks::c05::run(&ctx),
             "C06" => checks::c06::run(&ctx),
+            "C07" => checks::c07::run(&ctx),
             "C10" => checks::c10::run(&ctx),
             "C09" => checks::c09::run(&ctx),
             "C08" => checks::c08::run(&ctx),
